@@ -117,3 +117,8 @@ Definition api_case (id v : Z) (check : resp) (called : bool) (header : string) 
 
 Definition conf_case (id v : Z) (ot : bool) (file : string) : list Z :=
   [id; if String.eqb (version_conf v ot) file then 1 else 0; 1; 1; if ot then 1 else 2].
+
+(* Plus API pushes, connection affinity: every write request reached a worker whose configuration version is the
+   version NGINX is at (pairs: version of the serving worker, current version) *)
+Definition plusconn_case (id : Z) (ws : list (Z * Z)) : list Z :=
+  [id; 1; if forallb (fun p => fst p =? snd p) ws then 1 else 0; 1; 0].
